@@ -35,6 +35,8 @@ func init() {
 			{ID: "C16.R9", Floor: 1, Doc: "the event batch handed to the handler goroutine does not share storage with the buffer that keeps collecting events", Run: ruleGoHandoff},
 			{ID: "C16.R10", Floor: 4, Doc: "published host/token snapshots are read-only for their readers (=C11.R6)", Run: ruleSharedSlices},
 			{ID: "C16.R11", Floor: 6, Doc: "the host-id keyed tables (ring.hosts, policyConnPool.hostConnPools) are only ever indexed with host ids", Run: c16r11},
+			{ID: "C16.R12", Floor: 2, Doc: "the ring's guarded maps and lists never leave its methods by reference: what is returned is a copy made under the lock", Run: c16r12},
+			{ID: "C16.R13", Floor: 2, Doc: "refreshRing removes hosts of the previous view only (never the freshly fetched HostInfo); the token-aware policy rebuilds its ring from the host list as it is after the change", Run: c16r13},
 		},
 	})
 }
@@ -836,5 +838,186 @@ func c16r11(p *Program, r *Report) {
 	})
 	if n == 0 {
 		r.Unresolved("no index expression on ring.hosts / policyConnPool.hostConnPools found")
+	}
+}
+
+// c16r12: ring.hosts, ring.hostIPToUUID and ring.hostList are protected by ring.mu. A method that returns one of them
+// itself (directly or through a local alias) hands its caller a reference that is read and written outside the lock:
+// refreshRing, for one, deletes from the map currentHosts returns.
+func c16r12(p *Program, r *Report) {
+	guarded := map[*types.Var]bool{}
+	for _, gf := range ringGuards {
+		if gf.Type == "ring" {
+			if f := p.Field(gf.Type, gf.Field); f != nil {
+				guarded[f] = true
+			}
+		}
+	}
+	n := 0
+	p.forEachFunc(false, func(fi *FuncInfo) {
+		if fi.Pkg != p.Root || fi.Decl.Recv == nil || fi.Decl.Body == nil {
+			return
+		}
+		info := fi.Pkg.TypesInfo
+		if rt := info.TypeOf(fi.Decl.Recv.List[0].Type); rt == nil || typeNameOf(rt) != "ring" {
+			return
+		}
+		inspectNoLit(fi.Decl.Body, func(x ast.Node) bool {
+			rs, ok := x.(*ast.ReturnStmt)
+			if !ok {
+				return true
+			}
+			for _, res := range rs.Results {
+				t := info.TypeOf(res)
+				if t == nil {
+					continue
+				}
+				switch t.Underlying().(type) {
+				case *types.Map, *types.Slice:
+				default:
+					continue
+				}
+				n++
+				_, e := p.resolveValue(fi, res, 0)
+				fv := fieldOf(info, e)
+				leak := fv != nil && guarded[fv]
+				r.Check(!leak, rs, fi.Name+" returns a copy, not the guarded "+exprStr(ast.Unparen(e)), "fresh map / slice filled under the lock",
+					fi.Name+" returns "+exprStr(e)+" itself: the caller reads and writes the ring's own index outside ring.mu (refreshRing deletes from the map it gets, which empties the ring; concurrent readers race)")
+			}
+			return true
+		})
+	})
+	if n == 0 {
+		r.Unresolved("no ring method returns a map or a slice")
+	}
+}
+
+// c16r13: (a) in refreshRing the hosts handed to Session.removeHost come from the previous view of the ring (the map
+// currentHosts returned): that is the HostInfo the policies and pools know, under the old address. (b) in the
+// token-aware policy, a token ring rebuilt after the host list changed is built from the list read after the change.
+func c16r13(p *Program, r *Report) {
+	if fi := r.NeedFunc("refreshRing"); fi != nil {
+		info := fi.Pkg.TypesInfo
+		// the previous view: the local bound to ring.currentHosts()
+		var prev types.Object
+		ast.Inspect(fi.Decl.Body, func(x ast.Node) bool {
+			if as, ok := x.(*ast.AssignStmt); ok && len(as.Lhs) == 1 && len(as.Rhs) == 1 {
+				if c, isC := ast.Unparen(as.Rhs[0]).(*ast.CallExpr); isC && isCallTo(info, c, "(*ring).currentHosts") {
+					if id, isId := as.Lhs[0].(*ast.Ident); isId {
+						prev = info.Defs[id]
+					}
+				}
+			}
+			return true
+		})
+		n := 0
+		for _, c := range callsIn(fi.Decl.Body) {
+			if !isCallTo(info, c, "(*Session).removeHost") || len(c.Args) != 1 {
+				continue
+			}
+			n++
+			fromPrev := false
+			if id, isId := ast.Unparen(c.Args[0]).(*ast.Ident); isId && prev != nil {
+				obj := info.Uses[id]
+				ast.Inspect(fi.Decl.Body, func(y ast.Node) bool {
+					switch z := y.(type) {
+					case *ast.AssignStmt:
+						for i, l := range z.Lhs {
+							if lid, ok := l.(*ast.Ident); ok && (info.Defs[lid] == obj || info.Uses[lid] == obj) {
+								var rhs ast.Expr
+								if len(z.Rhs) == len(z.Lhs) {
+									rhs = z.Rhs[i]
+								} else if len(z.Rhs) == 1 && i == 0 {
+									rhs = z.Rhs[0]
+								}
+								if ix, isIx := ast.Unparen(rhs).(*ast.IndexExpr); isIx && isIdentOf(info, ix.X, prev) {
+									fromPrev = true
+								}
+							}
+						}
+					case *ast.RangeStmt:
+						if vid, ok := z.Value.(*ast.Ident); ok && info.Defs[vid] == obj && isIdentOf(info, z.X, prev) {
+							fromPrev = true
+						}
+					}
+					return true
+				})
+			}
+			r.Check(fromPrev, c, "refreshRing removes a host of the previous view", "argument taken from the map returned by currentHosts()",
+				"Session.removeHost is given "+exprStr(c.Args[0])+", which is not the HostInfo of the previous view of the ring: the policies remove by the address of the object they are given, so the old HostInfo (old address) stays in the selection policy and is offered for ever")
+		}
+		if n == 0 {
+			r.Unresolved("refreshRing never calls Session.removeHost")
+		}
+	}
+	// (b)
+	nb := 0
+	p.forEachFunc(false, func(fi *FuncInfo) {
+		if fi.Pkg != p.Root || fi.Decl.Body == nil {
+			return
+		}
+		info := fi.Pkg.TypesInfo
+		isMut := func(c *ast.CallExpr) bool {
+			return isCallTo(info, c, "(*cowHostList).add", "(*cowHostList).remove", "(*cowHostList).update", "(*cowHostList).set")
+		}
+		hasMut := false
+		for _, c := range callsIn(fi.Decl.Body) {
+			if isMut(c) {
+				hasMut = true
+			}
+		}
+		if !hasMut {
+			return
+		}
+		g := p.GraphOf(fi)
+		ef := g.Events(func(st Step) []string {
+			if st.Kind != StNode {
+				return nil
+			}
+			for _, c := range callsIn(st.Node) {
+				if isMut(c) {
+					return []string{"changed"}
+				}
+			}
+			return nil
+		})
+		for _, c := range callsIn(fi.Decl.Body) {
+			if !isCallTo(info, c, "(*clusterMeta).resetTokenRing") || len(c.Args) < 2 {
+				continue
+			}
+			nb++
+			arg := ast.Unparen(c.Args[1])
+			okArg := false
+			why := exprStr(arg)
+			if gc, isC := arg.(*ast.CallExpr); isC && isCallTo(info, gc, "(*cowHostList).get") {
+				okArg = true // read at the call, after whatever preceded it
+			} else if id, isId := arg.(*ast.Ident); isId {
+				// a local: its definition reads the list after the change
+				obj := info.Uses[id]
+				ast.Inspect(fi.Decl.Body, func(y ast.Node) bool {
+					as, ok := y.(*ast.AssignStmt)
+					if !ok || len(as.Lhs) != len(as.Rhs) {
+						return true
+					}
+					for i, l := range as.Lhs {
+						if lid, ok := l.(*ast.Ident); ok && (info.Defs[lid] == obj || info.Uses[lid] == obj) {
+							if gc, isC := ast.Unparen(as.Rhs[i]).(*ast.CallExpr); isC && isCallTo(info, gc, "(*cowHostList).get") {
+								if s, okS := ef.Sol.Before(as); okS && s.Must["changed"] {
+									okArg = true
+								} else {
+									why = id.Name + " := " + exprStr(as.Rhs[i]) + " at " + p.Pos(as) + ", before the list is changed"
+								}
+							}
+						}
+					}
+					return true
+				})
+			}
+			r.Check(okArg, c, fi.Name+" rebuilds the token ring from the host list as it is after the change", "hosts.get() read after add / remove",
+				"the token ring is rebuilt from "+why+": a copy-on-write snapshot taken before the list was changed still contains the removed node (or lacks the new one), so the node keeps its ranges and replica-set membership until the next change")
+		}
+	})
+	if nb == 0 {
+		r.Unresolved("no function changes the token-aware policy's host list and rebuilds the ring")
 	}
 }
